@@ -2,6 +2,8 @@
 package mon
 
 import (
+	"os"
+	"strconv"
 	"encoding/json"
 	"fmt"
 	"strings"
@@ -65,3 +67,62 @@ func wit(cfg *lib.Cfg, seed int64, idx int, more map[string]interface{}) map[str
 }
 
 var _ = fmt.Sprintf
+
+type replaySel struct {
+	Cfg   string
+	Index int
+	set   bool
+}
+
+var replay replaySel
+
+// LoadReplay restricts the run to the (cfg, seed, index) stored in a replay file.
+func LoadReplay(r *lib.Run) {
+	if ReplayFile == "" {
+		return
+	}
+	b, err := os.ReadFile(ReplayFile)
+	if err != nil {
+		fmt.Println("cannot read replay file:", err)
+		return
+	}
+	var f struct {
+		Seed    int64 `json:"seed"`
+		Witness struct {
+			Cfg   string `json:"cfg"`
+			Index int    `json:"index"`
+			Seed  int64  `json:"seed"`
+		} `json:"witness"`
+	}
+	if err := json.Unmarshal(b, &f); err != nil {
+		fmt.Println("cannot parse replay file:", err)
+		return
+	}
+	if f.Witness.Cfg == "" {
+		fmt.Println("replay file has no (cfg,index) witness; running the whole workload with its seed")
+		r.Seed = f.Seed
+		return
+	}
+	r.Seed = f.Witness.Seed
+	replay = replaySel{Cfg: f.Witness.Cfg, Index: f.Witness.Index, set: true}
+	os.Setenv("VERIF_NO_EVIDENCE", "1")
+	fmt.Printf("replaying cfg=%s seed=%d index=%d\n", replay.Cfg, r.Seed, replay.Index)
+}
+
+// skip reports whether case (cfg, idx) is outside a replay selection.
+func skip(cfg *lib.Cfg, idx int) bool {
+	if v := os.Getenv("VERIF_ONLY_CFG"); v != "" && v != cfg.Name {
+		return true
+	}
+	if v := os.Getenv("VERIF_MIN_INDEX"); v != "" {
+		if n, _ := strconv.Atoi(v); idx < n {
+			return true
+		}
+	}
+	if v := os.Getenv("VERIF_MAX_INDEX"); v != "" {
+		if n, _ := strconv.Atoi(v); idx > n {
+			return true
+		}
+	}
+	return replay.set && (cfg.Name != replay.Cfg || idx != replay.Index)
+}
